@@ -29,6 +29,12 @@ ignored, handlers act only when active.  C13.6 running links are created only
 by _configure.  C13.7 nothing placed is dropped by the resync: an entry
 leaves the to-configure map only when its own generation is accounted for,
 and the final loop configures everything left.
+Added by the seeding rounds - C13.1 the generation id depends on ctime (scaled
+before truncation), inode and instance, and the running-link clause; C13.3 via
+flags and None-results from the file loop; C13.4 a created event configures
+only when no running link exists; C13.5 the ready marker is recognised before
+dot names are ignored; C13.7 the new generation stays in the to-configure set;
+thorough: only the owner modules write running / cleanup links.
 Does NOT decide interleavings of events with clean-up completion.
 """
 
